@@ -393,6 +393,31 @@ def rule_P3(ctx):
             res.holds(inst, why[1])
         else:
             res.violated(inst, _f("P3", f, node, norm_src(node), why[1]))
+    # the context index list handed to the next task is a fresh copy made for this transition
+    uts0 = prog.function(UTS)
+    for f, node in sites:
+        if f is not uts0:
+            continue
+        kw = {k.arg: k.value for k in node.keywords}
+        if "retry" in kw or not isinstance(kw.get("ctxs"), ast.Name):
+            continue
+        var = kw["ctxs"].id
+        loop = node
+        while loop is not None and not isinstance(loop, ast.For):
+            loop = getattr(loop, "_parent", None)
+        inst = (f.qualname, "ctxs of " + norm_src(node)[:60])
+        ds = _defs(f, var)
+        inside = [d for d in ds if loop is not None and any(d is x for x in ast.walk(loop))]
+        fresh = [d for d in inside if isinstance(d.value, ast.Call) and callee_name(d.value) in (
+            "deepcopy", "list", "copy")]
+        if ds and len(inside) == len(ds) and fresh:
+            res.holds(inst, "copied per transition")
+        else:
+            res.violated(inst, _f(
+                "P3", f, node, "ctxs of the staged next task",
+                "the context index list %s passed to the next task is not a fresh copy made "
+                "inside the transition loop: what one transition publishes becomes visible to "
+                "the targets of the other transitions of the same task" % var))
     # in-place updates of an existing staged entry (second arrival) need the same justification
     uts = prog.function(UTS)
     fg = FuncGuards(prog, uts)
